@@ -131,6 +131,73 @@ int main(int argc, char** argv) {
         }
         if (g < 2) samples.push_back("game from " + fen + " ending in " + TextIO::toFEN(pos));
     }
+    // constructed en-passant families (rare in random play, and every en-passant shortcut of the generator has its own geometry):
+    //  (a) the king is in check by a pawn that has just made a double step and an own pawn can take it en passant - checking pawn on
+    //      either side of the king, capturing pawn on either side of the checking pawn, edge files included;
+    //  (b) the en-passant capture removes both pawns from the rank between an own rook/queen and the enemy king (either order).
+    // Both colours (the black versions are the white ones with colours swapped and the board turned upside down).
+    {
+        auto flipFen = [](const std::string& fen, int epFile) {
+            std::string rows[8]; int ri = 0;
+            for (char ch : fen.substr(0, fen.find(' '))) { if (ch == '/') ri++; else rows[ri] += (char)(isalpha(ch) ? (isupper(ch) ? tolower(ch) : toupper(ch)) : ch); }
+            std::string f2;
+            for (int r = 7; r >= 0; r--) { f2 += rows[r]; if (r) f2 += '/'; }
+            return f2 + " b - " + (char)('a' + epFile) + "3 0 1";
+        };
+        int made = 0;
+        for (long tries = 0; tries < 400000 && made < std::max(40, nSyn / 12); tries++) {
+            int board[64] = {0};
+            int epFile;
+            auto put = [&](int pc, int forbidFile) { for (int t = 0; t < 60; t++) { int sq = rnd.nextInt(64); if (board[sq] || sq / 8 == 4 || (sq % 8 == forbidFile && sq / 8 >= 5)) continue;
+                                                     if ((pc == Piece::WPAWN || pc == Piece::BPAWN) && (sq < 8 || sq >= 56)) continue; board[sq] = pc; return; } };
+            if (rnd.nextInt(2) == 0) {          // (a)
+                int xk = rnd.nextInt(8);
+                int xp = xk + (rnd.nextInt(2) ? 1 : -1);
+                if (xp < 0 || xp > 7) continue;
+                board[3 * 8 + xk] = Piece::WKING;
+                board[4 * 8 + xp] = Piece::BPAWN;
+                bool any = false;
+                for (int dx = -1; dx <= 1; dx += 2) { int xc = xp + dx; if (xc < 0 || xc > 7 || rnd.nextInt(3) == 0) continue; board[4 * 8 + xc] = Piece::WPAWN; any = true; }
+                if (!any) continue;
+                epFile = xp;
+            } else {                            // (b)
+                bool kingRight = rnd.nextInt(2) == 0;
+                int xk = kingRight ? 7 - rnd.nextInt(3) : rnd.nextInt(3);
+                int xr = kingRight ? rnd.nextInt(3) : 7 - rnd.nextInt(3);
+                int lo = std::min(xk, xr) + 1, hi = std::max(xk, xr) - 1;
+                if (hi - lo < 1) continue;
+                int xa = lo + rnd.nextInt(hi - lo);
+                bool whiteFirst = rnd.nextInt(2) == 0;
+                int xw = whiteFirst ? xa : xa + 1, xb = whiteFirst ? xa + 1 : xa;
+                board[4 * 8 + xk] = Piece::BKING;
+                board[4 * 8 + xr] = rnd.nextInt(3) ? Piece::WROOK : Piece::WQUEEN;
+                board[4 * 8 + xw] = Piece::WPAWN;
+                board[4 * 8 + xb] = Piece::BPAWN;
+                epFile = xb;
+            }
+            bool hasWK = false, hasBK = false;
+            for (int sq = 0; sq < 64; sq++) { hasWK |= board[sq] == Piece::WKING; hasBK |= board[sq] == Piece::BKING; }
+            if (!hasWK) put(Piece::WKING, epFile);
+            if (!hasBK) put(Piece::BKING, epFile);
+            static const int extra[] = {Piece::WKNIGHT, Piece::BKNIGHT, Piece::WBISHOP, Piece::BROOK, Piece::WPAWN, Piece::BPAWN, Piece::BQUEEN, Piece::WROOK};
+            for (int k = rnd.nextInt(4); k > 0; k--) put(extra[rnd.nextInt(8)], epFile);
+            std::string fen;
+            for (int y = 7; y >= 0; y--) {
+                int e = 0;
+                for (int x = 0; x < 8; x++) { int pc = board[y * 8 + x]; if (!pc) { e++; continue; } if (e) { fen += std::to_string(e); e = 0; } fen += " KQRBNPkqrbnp"[pc]; }
+                if (e) fen += std::to_string(e);
+                if (y) fen += '/';
+            }
+            fen += std::string(" w - ") + (char)('a' + epFile) + "6 0 1";
+            if (rnd.nextInt(2)) fen = flipFen(fen, epFile);
+            Position pos;
+            try { pos = TextIO::readFEN(fen); } catch (const ChessParseError&) { continue; }
+            if (!pos.getEpSquare().isValid()) continue;
+            out[made % nFiles] << posEvent(pos, st) << "\n";
+            if (made < 2) samples.push_back("en-passant family " + fen);
+            made++;
+        }
+    }
     Gen gen(rnd);
     for (int i = 0; i < nSyn; i++) {
         std::ofstream& os = out[i % nFiles];
